@@ -1,2 +1,269 @@
-(* Proofs/FastaProofsB.v *)
+(* Proofs/FastaProofsB.v — the reader: one lemma per machine state x input
+   class, the body of a record, a record, a layout; sufficiency of decode's fuel. *)
 From Bio Require Import Base.
+From Bio.Model Require Import Fasta.
+From Bio.Spec Require Import FastaSpec.
+
+(* ---- bytes ---------------------------------------------------------- *)
+
+Lemma memb_nl b : memb b [LF; CR] = false -> is_nl b = false.
+Proof.
+  unfold memb, is_nl. cbn [existsb].
+  destruct (b =? LF), (b =? CR); cbn; congruence.
+Qed.
+
+Lemma memb_nlgt b : memb b [LF; CR; GT] = false -> is_nl b = false /\ (b =? GT) = false.
+Proof.
+  unfold memb, is_nl. cbn [existsb].
+  destruct (b =? LF), (b =? CR), (b =? GT); cbn; intuition congruence.
+Qed.
+
+Lemma clean_nl c : clean [LF; CR] c -> Forall (fun b => is_nl b = false) c.
+Proof. apply Forall_impl. exact memb_nl. Qed.
+
+Lemma clean_nlgt_nl c : clean [LF; CR; GT] c -> Forall (fun b => is_nl b = false) c.
+Proof. apply Forall_impl. intros b H. apply (memb_nlgt b H). Qed.
+
+Lemma rev_append_app {A} (a b acc : list A) :
+  rev_append (a ++ b) acc = rev_append b (rev_append a acc).
+Proof. revert acc. induction a as [|x a IH]; intros acc; [reflexivity|]. cbn. apply IH. Qed.
+
+Lemma rev_append_twice {A} (l : list A) : rev_append (rev_append l []) [] = l.
+Proof. rewrite !rev_append_rev, !app_nil_r. apply rev_involutive. Qed.
+
+(* ---- runs of one input class in one state ---------------------------- *)
+
+(* name bytes in stateName *)
+Lemma rd_name_run c : Forall (fun b => is_nl b = false) c -> forall nm sq rest,
+  rd_loop SName nm sq true (c ++ rest) = rd_loop SName (rev_append c nm) sq true rest.
+Proof.
+  induction 1 as [|b c Hb _ IH]; intros nm sq rest; [reflexivity|].
+  cbn [app rd_loop rev_append]. rewrite Hb. apply IH.
+Qed.
+
+(* sequence bytes in stateSequence *)
+Lemma rd_seq_run c : Forall (fun b => is_nl b = false) c -> forall nm sq rest,
+  rd_loop SSeq nm sq true (c ++ rest) = rd_loop SSeq nm (rev_append c sq) true rest.
+Proof.
+  induction 1 as [|b c Hb _ IH]; intros nm sq rest; [reflexivity|].
+  cbn [app rd_loop rev_append]. rewrite Hb. apply IH.
+Qed.
+
+(* line breaks in stateNewLine *)
+Lemma rd_newline_nls s : Forall (fun b => is_nl b = true) s -> forall nm sq rest,
+  rd_loop SNewLine nm sq true (s ++ rest) = rd_loop SNewLine nm sq true rest.
+Proof.
+  induction 1 as [|b s Hb _ IH]; intros nm sq rest; [reflexivity|].
+  cbn [app rd_loop]. rewrite Hb. apply IH.
+Qed.
+
+(* a separator met in stateName / stateSequence leads to stateNewLine *)
+Lemma rd_sep_from_name s : sep s -> forall nm sq rest,
+  rd_loop SName nm sq true (s ++ rest) = rd_loop SNewLine nm sq true rest.
+Proof.
+  intros [Hne H] nm sq rest. destruct s as [|b s]; [congruence|].
+  inversion H as [|? ? Hb H']; subst.
+  cbn [app rd_loop]. rewrite Hb. apply rd_newline_nls. exact H'.
+Qed.
+
+Lemma rd_sep_from_seq s : sep s -> forall nm sq rest,
+  rd_loop SSeq nm sq true (s ++ rest) = rd_loop SNewLine nm sq true rest.
+Proof.
+  intros [Hne H] nm sq rest. destruct s as [|b s]; [congruence|].
+  inversion H as [|? ? Hb H']; subst.
+  cbn [app rd_loop]. rewrite Hb. apply rd_newline_nls. exact H'.
+Qed.
+
+(* a chunk met in stateNewLine: its first byte is neither a line break nor '>' *)
+Lemma rd_newline_chunk c : chunk c -> forall nm sq rest,
+  rd_loop SNewLine nm sq true (c ++ rest) = rd_loop SSeq nm (rev_append c sq) true rest.
+Proof.
+  intros [Hne H] nm sq rest. destruct c as [|b c]; [congruence|].
+  inversion H as [|? ? Hb Hc]; subst.
+  destruct (memb_nlgt b Hb) as [Hnl Hgt].
+  cbn [app rd_loop rev_append]. rewrite Hnl, Hgt.
+  apply rd_seq_run. apply clean_nlgt_nl. exact Hc.
+Qed.
+
+(* ---- the body of a record -------------------------------------------- *)
+
+(* what may follow a record's text: nothing if it is the last one, else a '>' *)
+Definition stop (l : bool) (rest : bytes) : Prop :=
+  if l then rest = [] else exists r', rest = GT :: r'.
+Definition res (l : bool) (rest : bytes) : option bytes :=
+  if l then None else Some rest.
+
+Lemma rd_body l s txt : Body l s txt -> forall rest, stop l rest -> forall nm sq,
+  rd_loop SNewLine nm sq true (txt ++ rest) = ((nm, rev_append s sq, true), res l rest).
+Proof.
+  induction 1 as [l | l c s sq' txt Hc Hs _ IH | c Hc]; intros rest Hstop nm sq.
+  - destruct l; cbn [stop res] in *.
+    + subst. reflexivity.
+    + destruct Hstop as [r' ->]. reflexivity.
+  - rewrite <- !app_assoc.
+    rewrite rd_newline_chunk by exact Hc.
+    rewrite rd_sep_from_seq by exact Hs.
+    rewrite IH by exact Hstop.
+    rewrite rev_append_app. reflexivity.
+  - cbn [stop res] in *. subst.
+    rewrite rd_newline_chunk by exact Hc. reflexivity.
+Qed.
+
+(* ---- one record -------------------------------------------------------- *)
+
+Lemma mk_result_eta r : mk_result (rev_append (name r) []) (rev_append (seq r) []) = r.
+Proof. unfold mk_result. rewrite !rev_append_twice. destruct r; reflexivity. Qed.
+
+Lemma rd_rec l r t : RecL l r t -> forall rest, stop l rest ->
+  read_one (t ++ rest) TEOF = RdRec r (if l then [] else rest).
+Proof.
+  intros H rest Hstop. destruct H as [l r s body Hn Hs Hb | r Hn Hq].
+  - unfold read_one. cbn [app rd_loop]. rewrite N.eqb_refl.
+    rewrite <- !app_assoc.
+    rewrite rd_name_run by (apply clean_nl; exact Hn).
+    rewrite rd_sep_from_name by exact Hs.
+    rewrite (rd_body l (seq r) body Hb rest Hstop).
+    destruct l; cbn [res negb]; rewrite mk_result_eta; reflexivity.
+  - cbn [stop] in Hstop. subst rest. rewrite app_nil_r.
+    unfold read_one. cbn [rd_loop]. rewrite N.eqb_refl.
+    rewrite <- (app_nil_r (name r)) at 1.
+    rewrite rd_name_run by (apply clean_nl; exact Hn).
+    cbn [rd_loop negb].
+    replace (@nil N) with (rev_append (seq r) []) at 2 by (rewrite Hq; reflexivity).
+    rewrite mk_result_eta. reflexivity.
+Qed.
+
+(* ---- a file ---------------------------------------------------------------- *)
+
+Lemma recl_head l r t : RecL l r t -> exists x, t = GT :: x.
+Proof. destruct 1; eexists; reflexivity. Qed.
+
+Lemma layout_head rs ts : Layout rs ts -> rs <> [] -> exists x, ts = GT :: x.
+Proof.
+  destruct 1 as [| r t H | r t rs ts H _ _]; intros N.
+  - congruence.
+  - exact (recl_head _ _ _ H).
+  - destruct (recl_head _ _ _ H) as [x ->]. eexists. reflexivity.
+Qed.
+
+Lemma layout_decode_fuel rs L : Layout rs L -> forall f, (length rs < f)%nat ->
+  decode_fuel f L TEOF = map Rec rs.
+Proof.
+  induction 1 as [| r t H | r t rs ts H N HL IH]; intros f Hf.
+  - destruct f; [lia|]. reflexivity.
+  - destruct f as [|[|f]]; cbn [length] in Hf; try lia.
+    cbn [decode_fuel].
+    rewrite <- (app_nil_r t).
+    rewrite (rd_rec true r t H [] eq_refl). reflexivity.
+  - destruct f; cbn [length] in Hf; [lia|].
+    cbn [decode_fuel].
+    rewrite (rd_rec false r t H ts (layout_head _ _ HL N)).
+    cbn [map]. f_equal. apply IH. lia.
+Qed.
+
+Lemma layout_length rs L : Layout rs L -> (length rs <= length L)%nat.
+Proof.
+  induction 1 as [| r t H | r t rs ts H N _ IH].
+  - apply Nat.le_refl.
+  - destruct (recl_head _ _ _ H) as [x ->]. cbn [length]. lia.
+  - destruct (recl_head _ _ _ H) as [x ->]. cbn [length app]. rewrite app_length. lia.
+Qed.
+
+(* C01, main statement (the hypothesis [Forall fa_ok rs] of the property is
+   implied by [Layout rs L], see layout_ok below; it is not needed here) *)
+Lemma layout_roundtrip rs L : Layout rs L -> decode L TEOF = map Rec rs.
+Proof.
+  intros H. unfold decode. apply (layout_decode_fuel rs L H).
+  pose proof (layout_length rs L H). lia.
+Qed.
+
+(* as the property states it *)
+Lemma layout_roundtrip_ok rs L :
+  Forall (fun r => clean [CR; LF] (name r) /\ clean [CR; LF; GT] (seq r)) rs ->
+  Layout rs L -> decode L TEOF = map Rec rs.
+Proof. intros _. apply layout_roundtrip. Qed.
+
+(* ---- every record of a layout is in the domain ---------------------------- *)
+
+Lemma memb2_swap b : memb b [CR; LF] = memb b [LF; CR].
+Proof. unfold memb. cbn [existsb]. destruct (b =? LF), (b =? CR); reflexivity. Qed.
+Lemma memb3_swap b : memb b [CR; LF; GT] = memb b [LF; CR; GT].
+Proof. unfold memb. cbn [existsb]. destruct (b =? LF), (b =? CR), (b =? GT); reflexivity. Qed.
+
+Lemma clean2_swap s : clean [CR; LF] s <-> clean [LF; CR] s.
+Proof. split; apply Forall_impl; intros b; rewrite memb2_swap; trivial. Qed.
+Lemma clean3_swap s : clean [CR; LF; GT] s <-> clean [LF; CR; GT] s.
+Proof. split; apply Forall_impl; intros b; rewrite memb3_swap; trivial. Qed.
+
+Lemma body_clean l s txt : Body l s txt -> clean [LF; CR; GT] s.
+Proof.
+  induction 1 as [l | l c s sq' txt Hc Hs _ IH | c Hc].
+  - constructor.
+  - apply Forall_app. split; [apply Hc | exact IH].
+  - apply Hc.
+Qed.
+
+Lemma recl_ok l r t : RecL l r t -> fa_ok r.
+Proof.
+  destruct 1 as [l r s body Hn Hs Hb | r Hn Hq]; split.
+  - apply clean2_swap. exact Hn.
+  - apply clean3_swap. exact (body_clean _ _ _ Hb).
+  - apply clean2_swap. exact Hn.
+  - rewrite Hq. constructor.
+Qed.
+
+Lemma layout_ok rs L : Layout rs L -> Forall fa_ok rs.
+Proof.
+  induction 1 as [| r t H | r t rs ts H N _ IH].
+  - constructor.
+  - constructor; [exact (recl_ok _ _ _ H) | constructor].
+  - constructor; [exact (recl_ok _ _ _ H) | exact IH].
+Qed.
+
+(* ---- decode's fuel suffices for every input ------------------------------- *)
+
+Lemma rd_loop_rest inp : forall st nm sq any r rest,
+  rd_loop st nm sq any inp = (r, Some rest) -> (length rest <= length inp)%nat.
+Proof.
+  induction inp as [|b inp IH]; intros st nm sq any r rest H.
+  - cbn in H. congruence.
+  - cbn [rd_loop] in H. cbn [length].
+    destruct st.
+    + destruct (b =? GT); [|destruct (is_nl b)]; apply IH in H; lia.
+    + destruct (is_nl b); [apply IH in H; lia|].
+      destruct (b =? GT).
+      * injection H as _ <-. cbn [length]. lia.
+      * apply IH in H; lia.
+    + destruct (is_nl b); apply IH in H; lia.
+    + destruct (is_nl b); apply IH in H; lia.
+Qed.
+
+Lemma read_one_rest inp t r rest :
+  read_one inp t = RdRec r rest -> (length rest < length inp)%nat.
+Proof.
+  unfold read_one. destruct inp as [|b inp].
+  - cbn. destruct t; discriminate.
+  - cbn [rd_loop].
+    assert (E : exists st nm sq,
+      rd_loop SStart [] [] false (b :: inp) = rd_loop st nm sq true inp).
+    { cbn [rd_loop]. destruct (b =? GT); [|destruct (is_nl b)]; do 3 eexists; reflexivity. }
+    destruct E as (st & nm & sq & E). cbn [rd_loop] in E. rewrite E.
+    destruct (rd_loop st nm sq true inp) as [[[nm' sq'] any'] [rest'|]] eqn:R.
+    + intros H. injection H as _ <-. apply rd_loop_rest in R. cbn [length]. lia.
+    + destruct (negb any'); destruct t; try discriminate.
+      intros H. injection H as _ <-. cbn [length]. lia.
+Qed.
+
+Lemma decode_fuel_enough f1 : forall f2 inp t,
+  (length inp < f1)%nat -> (length inp < f2)%nat ->
+  decode_fuel f1 inp t = decode_fuel f2 inp t.
+Proof.
+  induction f1 as [|f1 IH]; intros f2 inp t H1 H2; [lia|].
+  destruct f2; [lia|]. cbn [decode_fuel].
+  destruct (read_one inp t) as [r rest| |] eqn:R; try reflexivity.
+  apply read_one_rest in R. f_equal. apply IH; lia.
+Qed.
+
+Lemma decode_fuel_sufficient inp t f :
+  (length inp < f)%nat -> decode_fuel f inp t = decode inp t.
+Proof. intros H. unfold decode. apply decode_fuel_enough; lia. Qed.
